@@ -5,7 +5,19 @@ import PyctrModel.Fmt.Romfs
 import PyctrModel.Engine.Engine
 namespace Pyctr
 namespace Sd
-open Romfs (Str encodeUtf16)
+
+/-- a Python `str`: a list of Unicode code points (NOT UTF-16 units: `len`, slicing and the alias guard count code points) -/
+abbrev Str := List Nat
+
+/-- `s.encode('utf-16le')`: one unit per BMP code point, a surrogate pair above it -/
+def encodeUtf16 (s : Str) : Bytes :=
+  s.flatMap fun cp =>
+    if cp < 0x10000 then [UInt8.ofNat (cp % 256), UInt8.ofNat (cp / 256)]
+    else
+      let v := cp - 0x10000
+      let hi := 0xD800 + v / 0x400
+      let lo := 0xDC00 + v % 0x400
+      [UInt8.ofNat (hi % 256), UInt8.ofNat (hi / 256), UInt8.ofNat (lo % 256), UInt8.ofNat (lo / 256)]
 
 /-- `path.replace('\\', '/')` -/
 def fwd (p : Str) : Str := p.map fun c => if c == 0x5C then 0x2F else c
